@@ -143,6 +143,14 @@ def p_routes_agree(x):
         a = dc.DebianCopyright.from_file(path)
         b = dc.DebianCopyright.from_text(t)
         sa, sb = _snap(a), _snap(b)
+        from debian_inspector import deb822
+        c = dc.DebianCopyright.from_fields_groups(deb822.get_paragraphs_as_field_groups(t))
+        if _snap(c) != sb:
+            return 'the object built from the field groups of the text differs from the object built from the text'
+        hd = [p for p in b.paragraphs if isinstance(p, dc.CopyrightHeaderParagraph)]
+        if b.get_header() is not (hd[0] if hd else None):
+            return 'get_header() does not return the first header paragraph'
+
     except Exception as e:  # noqa
         return 'raises %s' % type(e).__name__
     finally:
